@@ -64,9 +64,8 @@ STATS_PATH = re.compile(r"^modules\.(\d+)\.(loaded_symbols|missing_symbols|corru
 
 class C13(PropBase):
     pid = "C13"
-    coq_dirs = ["Base", "C08", "C03", "C12", "C13"]
-    translators = []
-    translators = []
+    coq_dirs = ["Base", "C08", "C03", "C12", "C13", "Gen"]
+    translators = ["c13_sites.py"]
     bins = ["c13"]
     impl_timeout = 900
     impl_mem_gb = 4
